@@ -147,7 +147,7 @@ static void *watchdog(void *arg)
 		struct timespec ts = {0, 200000000};
 		nanosleep(&ts, NULL);
 		uint64_t s = __atomic_load_n(&steps, __ATOMIC_RELAXED);
-		if(s != last_steps) {
+		if(s != last_steps || !rsv_on_hang) { /* armed only while the harness has a hang handler installed (= during the run) */
 			last_steps = s;
 			cpu_mark = cpu_now();
 			continue;
